@@ -279,7 +279,9 @@ def evaluate_runner(fr, spec, itypes=("cell",), n_inputs=2, prop="C01", all_enti
                     kind = "guard"
                     what = f"kernel ({itype},{sid}) entity {ent}: " + "; ".join(problems)
                 else:
-                    ok, worst, idx = compare(np.asarray(A) - A0, Aref, E + fr.tol.u * (np.abs(A0) + np.abs(Aref)))
+                    # the kernel adds into the pre-filled A once per quadrature point: each += rounds at |A0|+|T|
+                    nacc = refeval.LAST["nacc"]
+                    ok, worst, idx = compare(np.asarray(A) - A0, Aref, E + nacc * fr.tol.u * (np.abs(A0) + np.abs(Aref)))
                     if not ok:
                         d = np.asarray(A) - A0
                         what = (f"kernel ({itype},{sid}) entity {ent} input#{k}: A{list(idx)} = {d[idx] if idx else d!r} but reference "
